@@ -460,6 +460,18 @@ func runC04(c *Ctx) {
 			}
 		})
 	}
+	// a buffered sink may be stopped while logging goes on (its buffer keeps
+	// working without the flush loop; the drain phase below stops it again)
+	if len(tickers) > 0 && g.Chance(4) {
+		victim := tickers[g.Draw(len(tickers))]
+		r.Go("stopper", func() {
+			zsim.Yield(zsim.KOp, nil)
+			if err := victim.Stop(); err != nil {
+				c.Fail("C04: Stop of a buffered sink failed on a healthy device", "%v", err)
+			}
+		})
+		c.Fault("stop-while-logging")
+	}
 	ticks := 0
 	if tickBudget > 0 {
 		r.AddEvent(&zsim.Event{Name: "tick", Avail: func() bool {
